@@ -278,6 +278,13 @@ def rule_OR2_watcher(ctx, tier):
         hbs = sites(stt, RSP + "handle_breach")
         dels = sites(stt, GK + "delete_appointments")
         built = _status_built(ctx, RSP + "handle_breach")
+        # the appointment row exists before the Responder is asked to store a tracker for it (trackers reference appointments)
+        before_st = ctx.pf.called_before(stt)
+        for hb_ in hbs:
+            if (W + "store_appointment") in before_st.get(hb_, set()):
+                rr.ok("late trigger: appointment stored before the hand-over to the Responder")
+            else:
+                rr.fail("st:handover-before-store", "store_triggered_appointment hands the breach to the Responder on a path that has not stored the appointment: the tracker row has no appointment to reference (the insert is refused, or the data exists only in the tracker), and the receipt stands for an appointment that was never written", where=stt.line_of(hb_))
         if len(hbs) != 1 or not dels or not built:
             rr.fail("st:shape", "store_triggered_appointment: expected one handle_breach call and a delete_appointments call (found %d / %d; verdicts %s)" % (len(hbs), len(dels), sorted(built)), where=stt.span)
         else:
@@ -395,7 +402,7 @@ def rule_OR2_responder(ctx, tier):
             if RSP + "check_confirmations" in before.get(bb, set()):
                 rr.ok("check_confirmations before %s" % name)
             else:
-                rr.fail("fbc:%s-before-confirmations" % name, "%s runs on a path that has not yet recorded this block's confirmations: a penalty mined in this very block is still `InMempoolSince` in the database and is re-submitted to a node that has it in the chain (rejected, or `IrrevocablyResolved` reaching the status update)" % name, where=f.line_of(bb))
+                rr.fail("fbc:%s-before-confirmations" % name, "%s runs on a path that has not yet recorded this block's confirmations: a penalty mined in this very block is still `InMempoolSince` in the database and is re-submitted to a node that has it in the chain (rejected, or `IrrevocablyResolved` reaching the status update); and once handle_reorged_txs has drained the reorged set, check_confirmations no longer skips trackers whose stored height is above this block (`current_height - h` underflows)" % name, where=f.line_of(bb))
     hr = sites(f, RSP + "handle_reorged_txs")
     if not hr:
         rr.fail("fbc:no-reorg-handler", "Responder::filtered_block_connected never calls handle_reorged_txs", where=f.span)
@@ -633,6 +640,15 @@ def _reject_or_update(ctx, rr, b, label):
             rr.fail("%s:rejected-kept" % label, "a tracker whose re-submission was rejected is not queued for deletion", where=b.line_of(sw))
     if not pushes:
         rr.fail("%s:no-reject-list" % label, "no rejected list is built", where=b.span)
+    # ... and a verdict other than Rejected is written back: the stored status is what the next block's passes select on
+    for sw, succ in switch_succ_with(ctx, b, "variant", "Rejected", "Carrier::send_transaction"):
+        if b.term(sw)["k"] != "switch":
+            continue
+        others = [s_ for s_ in b.succ(sw) if s_ != succ]
+        if others and ups and always_reaches(b, others, ups, lambda x: is_iter_next(b, x)):
+            rr.ok("%s: any other verdict -> update_tracker_status" % label)
+        elif label == "rb":
+            rr.fail("%s:status-not-persisted" % label, "a re-submitted tracker whose verdict is not Rejected can go to the next one without `update_tracker_status`: the database keeps `InMempoolSince(old height)`, so it is re-sent on every block from now on and its confirmation count is never restarted", where=b.line_of(sw))
 
 
 def rule_OR2_gatekeeper(ctx, tier):
@@ -763,6 +779,14 @@ def rule_OR3(ctx, tier):
             rr.fail("key-regenerated", "a new tower key is generated although a key is stored and --overwritekey was not given", where=m.line_of(bb))
     if len(mk) != 2:
         rr.fail("key-sites=%d" % len(mk), "expected 2 create_new_tower_keypair sites in main", where=m.span)
+    from .rulekit import generated_keys_persisted
+    generated_keys_persisted(ctx, rr, ("teosd::",), DBM + "store_tower_key", "tower")
+    # after the bootstrap poll, main hands the chain over to the polling loop on every path that does not exit
+    mcs = [x for x in ctx.pf.must_call().get(m.id, set()) if x.endswith("::monitor_chain")]
+    if mcs:
+        rr.ok("main always reaches ChainMonitor::monitor_chain")
+    else:
+        rr.fail("no-polling-loop", "teosd's main can run to its end without entering ChainMonitor::monitor_chain: after the bootstrap no block is ever polled again, the interfaces stay up and every breach is missed", where=m.span)
     rr.require_floor(10, "OR3 instances")
     # start-up reads of the TLS identity files: a file is read only if it was just written or found to exist on the same path
     # (key and certificate are written one after the other; a crash in between leaves the key without its certificate)
